@@ -64,10 +64,11 @@ void submit(cocls::thread_pool &pool, int kind, int j, int stop_mode, std::vecto
         bare.push_back({std::move(fut), j});
         break; }
     case 2: {
-        auto f = pool.run([&pool, j] { ran(pool, j); return 200L + j; });
+        auto f = pool.run([&pool, j] { ran(pool, j); if (j % 2) throw vs::TestError(j); return 200L + j; });      // odd jobs end with an exception: still "ran", reported through the future
         dsim::cell_set(SUBMITTED + j, 1);
-        try { long v = f.wait(); if (v != 200 + j) dsim::fail("C11.value", "run() future of job %d holds %ld", j, v); if (!dsim::cell_get(RAN + j)) dsim::fail("C11.value", "run() future of job %d has a value but the function did not run", j); }
+        try { long v = f.wait(); if (v != 200 + j || j % 2) dsim::fail("C11.value", "run() future of job %d holds %ld", j, v); if (!dsim::cell_get(RAN + j)) dsim::fail("C11.value", "run() future of job %d has a value but the function did not run", j); }
         catch (const cocls::await_canceled_exception &) { cancelled(j); }
+        catch (const vs::TestError &e) { if (!(j % 2) || e.code != j || !dsim::cell_get(RAN + j)) dsim::fail("C11.value", "run() future of job %d reports exception %ld (ran %ld)", j, e.code, dsim::cell_get(RAN + j)); }
         break; }
     case 3: {
         auto fut = std::make_unique<cocls::future<long>>([&] { return pool.run(k3(pool, j)); });
